@@ -1,5 +1,6 @@
 import Driver.Util
 import MpcVerif.Model.Proto2
+import MpcVerif.Model.Proto2Conn
 
 namespace Drv.C02
 open Mpc Drv
@@ -33,6 +34,33 @@ def parseNats (s : String) : Option (List Nat) :=
   if s == "-" then some [] else (s.splitOn ",").mapM String.toNat?
 
 def idealOt : OtFun (BitVec 128) := fun ws fl => List.zipWith (fun w b => w.labelFor b) ws fl
+
+/-- FNV-1a (64 bit) of a byte stream: the digest the harness prints of the
+bytes each party wrote to its transport. -/
+def fnv64 (b : ByteArray) : UInt64 :=
+  b.foldl (fun h c => (h ^^^ c.toUInt64) * 0x100000001b3) 0xcbf29ce484222325
+
+def hex64 (x : UInt64) : String :=
+  let d := Nat.toDigits 16 x.toNat
+  String.ofList (List.replicate (16 - d.length) '0' ++ d)
+
+/-- `<size>x<count>,<size>,...` : the sizes the transport returned on its
+successive `Read` calls, run-length encoded ("-" = none).  Beyond the recorded
+reads the transport delivers everything it has. -/
+def parseReads (s : String) : Option (Array Nat) :=
+  if s == "-" then some #[] else
+    (s.splitOn ",").foldlM (fun (acc : Array Nat) item =>
+      match item.splitOn "x" with
+      | [a] => a.toNat?.map acc.push
+      | [a, k] => do
+        let a ← a.toNat?
+        let k ← k.toNat?
+        pure (acc ++ Array.replicate k a)
+      | _ => none) #[]
+
+def fragOf (a : Array Nat) : Conn.Frag := fun i => a.getD i (2 ^ 40)
+
+def streamStr (b : ByteArray) : String := s!"{b.size}:{hex64 (fnv64 b)}"
 
 /-- `c02 <ot> <tape> <nw> <nin> <nout> <gates> <n0> <n1> <widths> <x> <y>` -/
 def handle (args : List String) : String :=
@@ -76,6 +104,35 @@ def handle (args : List String) : String :=
               let ge := encodeMsgs (f1 ++ [.data (natToBytesBE (packLE bits))])
               let eg := encodeMsgs ([.u32 n0, .u32 n1] ++ outLabels.map .label)
               s!"ge={Aes.hexOfBytes ge};eg={Aes.hexOfBytes eg};" ++ res
+    | _, _, _, _, _ => "bad-op"
+  | [otName, tape, nw, nin, nout, gates, n0, n1, widths, x, y, _sched, readsGE, readsEG] =>
+    -- `c02c`: a session over two connections (Model/Proto2Conn.lean).  With the
+    -- ideal OT the model replays the read fragmentation the harness transport
+    -- recorded and reports both byte streams, the transport reads of both
+    -- receive halves and both results; with a real OT the results only.
+    match Aes.bytesOfHex tape, parseCircuit nw nin nout gates, n0.toNat?, n1.toNat?, parseNats widths with
+    | some tape, some c, some n0, some n1, some widths =>
+      let p : Circuit2 := { c := c, n0 := n0, n1 := n1, outWidths := widths }
+      if tape.size < 32 + 16 * (1 + c.nIn) then "bad-op" else
+      let key := (tape.extract 0 32).toList
+      let r := setS (label128 tape 32)
+      let inl := fun i => label128 tape (32 + 16 * (i + 1))
+      let x := parseBits x
+      let y := parseBits y
+      if otName != "ideal" then
+        match run2 p mkH key r inl x y idealOt with
+        | .error _ => "error"
+        | .ok (gres, eres) => s!"g={natsStr gres};e={natsStr eres}"
+      else
+        match parseReads readsGE, parseReads readsEG with
+        | some rge, some reg =>
+          let env : ConnEnv := { sch := fun _ _ => 0, fragGE := fragOf rge, fragEG := fragOf reg }
+          match run2Conn p mkH key r inl x y idealOt env with
+          | .error _ => "error"
+          | .ok ((gres, eres), rE, rG) =>
+            s!"ge={streamStr rE.pend};eg={streamStr rG.pend};rd={rE.nread}:{hex64 rE.rlog},{rG.nread}:{hex64 rG.rlog};" ++
+              s!"g={natsStr gres};e={natsStr eres}"
+        | _, _ => "bad-op"
     | _, _, _, _, _ => "bad-op"
   | _ => "bad-op"
 
